@@ -910,4 +910,38 @@ theorem any_isDotDot_iff (L : List (List Nat)) : L.any isDotDot = true ↔ [DOT,
   simp [List.any_eq_true, isDotDot]
 
 
+/-- The rewrite is in place: the result is never longer than the input. -/
+theorem cleanup_len_le (f : Flags) (p q : List Nat) (hp : ∀ x ∈ p, x ≠ 0) (h : cleanup f p = .ok q) :
+    q.length ≤ p.length := by
+  rw [cleanup_eq_spec _ _ hp] at h
+  unfold cleanSpec at h
+  dsimp only at h
+  have hlen := emit_keep_len (splitSlash p) false
+  rw [emit_false, join_split] at hlen
+  simp only [Bool.false_eq_true, if_false, Nat.zero_add] at hlen
+  split at h
+  · simp at h
+  · rename_i hne
+    have hpos : 0 < p.length := List.length_pos_iff.mpr hne
+    split at h
+    · simp at h
+    · split at h
+      · simp at h
+      · split at h
+        · rename_i habs
+          simp only [Res.ok.injEq] at h; subst h
+          cases p with
+          | nil => simp at habs
+          | cons c r =>
+            simp only [List.head?_cons, Option.some.injEq] at habs; subst habs
+            rw [splitSlash_cons_slash, keep_cons, if_pos (Or.inl rfl)]
+            have := emit_keep_len (splitSlash r) false
+            rw [emit_false, join_split] at this
+            simp only [Bool.false_eq_true, if_false, Nat.zero_add] at this
+            simp only [List.length_cons]; omega
+        · split at h
+          · simp only [Res.ok.injEq] at h; subst h; simp only [List.length_cons, List.length_nil]; omega
+          · simp only [Res.ok.injEq] at h; subst h; exact hlen
+
+
 end LA.PathClean
